@@ -181,6 +181,21 @@ def gen_chain_query(rng, sig, conds):
     return (lit, c)
 
 
+def gen_infinity_query(rng, sig, conds):
+    """For a weakly consistent base: a query whose antecedent together with the negated consequent
+    contradicts a conditional of the infinity layer (the consequent is that conditional's material
+    implication), so its answer hangs on the vacuity tests of the extended operators rather than on
+    the finite layers.  None if the base has no infinity layer."""
+    layers = tolerance_partition(sig, conds, True)
+    if not layers or not layers[-1]:
+        return None
+    b, a = conds[rng.choice(layers[-1])]
+    cons = b if a == ("top",) else ("or", ("not", a), b)
+    r = rng.random()
+    ante = ("top",) if r < 0.15 else (gen_literal(rng, sig) if r < 0.7 else gen_formula(rng, sig, 1))
+    return (cons, ante)
+
+
 def gen_query(rng, atoms, conds=None, bias=None):
     r = rng.random()
     if bias == "conflict" and conds:
